@@ -197,9 +197,9 @@ Qed.
 (* ------------------------------------------------------------------ *)
 (** * 3. the join replay of the RTP cache: no repeated id, at most [VPS] SPS PPS + one GOP *)
 
-Notation subseq := LtsFanoutProofs.subseq.
-Notation since := LtsBacklogProofs.since.
-Notation gap_ok := LtsBacklogProofs.gap_ok.
+Local Notation subseq := LtsFanoutProofs.subseq.
+Local Notation since := LtsBacklogProofs.since.
+Local Notation gap_ok := LtsBacklogProofs.gap_ok.
 
 Lemma subseq_snoc : forall A (a l : list A) p, subseq a l -> subseq (a ++ [p]) (l ++ [p]).
 Proof.
@@ -624,4 +624,243 @@ Proof.
     pose proof (RI_len _ _ HR) as Hlen.
     pose proof (LtsBacklogProofs.gap_ok_prefix G (l_pkts c) l0 (rest0 ++ rest) HG Epk) as Hsince.
     lia.
+Qed.
+
+(* ------------------------------------------------------------------ *)
+(** * 4. C01 *)
+
+Lemma memZ_In : forall x l, memZ x l = true <-> In x l.
+Proof.
+  intros x l. unfold memZ. rewrite existsb_exists. split.
+  - intros (y & Hy & E). apply Z.eqb_eq in E. subst y. exact Hy.
+  - intros H. exists x. split; [exact H|apply Z.eqb_refl].
+Qed.
+
+Lemma nodupZ_NoDup : forall l, nodupZ l = true <-> NoDup l.
+Proof.
+  induction l as [|x l IH]; cbn [nodupZ].
+  - split; [constructor|reflexivity].
+  - rewrite andb_true_iff, negb_true_iff, IH. split.
+    + intros [H1 H2]. constructor; [|exact H2]. intros Hin. apply memZ_In in Hin. congruence.
+    + intros H. inversion H as [|? ? Hnin Hnd]; subst. split; [|exact Hnd].
+      destruct (memZ x l) eqn:E; [|reflexivity]. apply memZ_In in E. contradiction.
+Qed.
+
+(* the greedy matcher finds every subsequence *)
+Lemma subseqZ_tail_cons : forall b,
+  (forall a l, subseqZ (a :: l) b = true -> subseqZ l b = true) /\
+  (forall l y, subseqZ l b = true -> subseqZ l (y :: b) = true).
+Proof.
+  induction b as [|y b [IH1 IH2]].
+  - split.
+    + intros a l H. discriminate.
+    + intros l y H. destruct l; [reflexivity|discriminate].
+  - assert (HP : forall a l, subseqZ (a :: l) (y :: b) = true -> subseqZ l (y :: b) = true).
+    { intros a l H. cbn [subseqZ] in H. destruct (a =? y)%Z.
+      - apply IH2. exact H.
+      - apply IH2. apply (IH1 a). exact H. }
+    split; [exact HP|].
+    intros l z H. destruct l as [|x l]; [reflexivity|].
+    cbn [subseqZ]. destruct (x =? z)%Z; [|exact H].
+    apply (HP x). exact H.
+Qed.
+
+Lemma subseqZ_complete : forall a b : list Z, subseq a b -> subseqZ a b = true.
+Proof.
+  intros a b H. induction H as [l|l1 x l2 H IH|l1 x l2 H IH].
+  - destruct l; reflexivity.
+  - apply (proj2 (subseqZ_tail_cons l2)). exact IH.
+  - cbn [subseqZ]. rewrite Z.eqb_refl. exact IH.
+Qed.
+
+Lemma posZ_in : forall x a b, In x a -> posZ x (a ++ b) = posZ x a /\ posZ x a < length a.
+Proof.
+  intros x a b. induction a as [|y a IH]; intros Hin; [contradiction|].
+  cbn [app posZ length]. destruct (Z.eqb_spec x y) as [E|E]; [split; [reflexivity|lia]|].
+  destruct Hin as [Hin|Hin]; [congruence|]. destruct (IH Hin) as [H1 H2]. split; lia.
+Qed.
+
+Lemma posZ_notin : forall x a b, ~ In x a -> posZ x (a ++ b) = length a + posZ x b.
+Proof.
+  intros x a b. induction a as [|y a IH]; intros Hnin; [reflexivity|].
+  cbn [app posZ length]. destruct (Z.eqb_spec x y) as [E|E].
+  - exfalso. apply Hnin. left. congruence.
+  - rewrite IH; [reflexivity|]. intros H. apply Hnin. right. exact H.
+Qed.
+
+Lemma nodup_app_disj : forall (a b : list Z) x, NoDup (a ++ b) -> In x a -> In x b -> False.
+Proof.
+  induction a as [|y a IH]; intros b x Hnd Ha Hb; [contradiction|].
+  cbn [app] in Hnd. inversion Hnd as [|? ? Hnin Hnd']; subst. destruct Ha as [<-|Ha].
+  - apply Hnin. apply in_or_app. right. exact Hb.
+  - eapply IH; eassumption.
+Qed.
+
+Lemma pos_lt : forall (a b : list Z) x y,
+  NoDup (a ++ b) -> In x a -> In y b -> posZ x (a ++ b) < posZ y (a ++ b).
+Proof.
+  intros a b x y Hnd Hx Hy. destruct (posZ_in x a b Hx) as [E1 H1].
+  rewrite E1, posZ_notin; [lia|]. intros Hya. eapply nodup_app_disj; eassumption.
+Qed.
+
+Lemma firstn_min_len : forall A n (l : list A), firstn (Nat.min n (length l)) l = firstn n l.
+Proof.
+  intros A n l. destruct (Nat.le_ge_cases n (length l)) as [H|H].
+  - rewrite Nat.min_l by exact H. reflexivity.
+  - rewrite Nat.min_r by exact H. rewrite firstn_all, firstn_all2 by exact H. reflexivity.
+Qed.
+
+Lemma skipn_min_len : forall A n (l : list A), skipn (Nat.min n (length l)) l = skipn n l.
+Proof.
+  intros A n l. destruct (Nat.le_ge_cases n (length l)) as [H|H].
+  - rewrite Nat.min_l by exact H. reflexivity.
+  - rewrite Nat.min_r by exact H. rewrite skipn_all, skipn_all2 by exact H. reflexivity.
+Qed.
+
+(* what one consumer was handed passes the stream oracle *)
+Lemma stream_ok : forall c, l_var c = fixed -> NoDup (map p_id (l_pkts c)) -> forall i,
+  ok_stream (map p_id (l_pkts c)) (map p_id (c_out (s_cs (lrun c) i))) = true.
+Proof.
+  intros c Hv Hnd i. pose proof (lrun_fixed c Hv) as Hs.
+  destruct (prefill_facts c Hv i) as (Hpin & Hpnd & _).
+  set (s := lrun c) in *. set (k := s_cs s i) in *.
+  pose proof (LtsFanoutProofs.delivered_prefix_of_pushed (l_maxq c) rcache (rc_empty (l_gop c)) rc_add
+                rc_snap (l_n c) (pan c) (l_pkts c) (stp c) (l_sched c) i) as F1.
+  pose proof (LtsFanoutProofs.pushed_is_prefill_then_selected_live (l_maxq c) rcache (rc_empty (l_gop c))
+                rc_add rc_snap (l_n c) (pan c) (l_pkts c) (stp c) (l_sched c) i) as F2.
+  pose proof (LtsFanoutProofs.live_out_subseq_window (l_maxq c) rcache (rc_empty (l_gop c)) rc_add
+                rc_snap (l_n c) (pan c) (l_pkts c) (stp c) (l_sched c) i) as F3.
+  pose proof (LtsFanoutProofs.live_out_subseq_sent (l_maxq c) rcache (rc_empty (l_gop c)) rc_add
+                rc_snap (l_n c) (pan c) (l_pkts c) (stp c) (l_sched c) i) as F4.
+  pose proof (LtsFanoutProofs.sent_prefix_of_published (l_maxq c) rcache (rc_empty (l_gop c)) rc_add
+                rc_snap (l_n c) (pan c) (l_pkts c) (stp c) (l_sched c)) as F5.
+  pose proof (LtsFanoutProofs.prefill_before_registration (l_maxq c) rcache (rc_empty (l_gop c)) rc_add
+                rc_snap (l_n c) (pan c) (LtsFanoutProofs.rc_snap_empty (l_gop c)) LtsFanoutProofs.rc_snap_add
+                (l_pkts c) (stp c) (l_sched c) i) as F6.
+  pose proof (LtsFanoutProofs.out_at_most_once (l_maxq c) rcache (rc_empty (l_gop c)) rc_add
+                rc_snap (l_n c) (pan c) (LtsFanoutProofs.rc_snap_empty (l_gop c)) LtsFanoutProofs.rc_snap_add
+                (l_pkts c) (stp c) (l_sched c) i) as F7.
+  pose proof (fun x => LtsFanoutProofs.live_out_unmodified (l_maxq c) rcache (rc_empty (l_gop c)) rc_add
+                rc_snap (l_n c) (pan c) (l_pkts c) (stp c) (l_sched c) i x) as F8.
+  cbv zeta in F1, F2, F3, F4, F5, F6, F7, F8.
+  rewrite <- Hs in F1, F2, F3, F4, F5, F6, F7, F8.
+  fold k in F1, F2, F3, F4, F6, F7, F8.
+  destruct F1 as [rest F1]. destruct F2 as [F2 _]. destruct F5 as [rest' F5].
+  set (n := length (c_prefill k)).
+  (* the first n delivered packets come from the replay *)
+  assert (Hpre : forall a, In a (firstn n (c_out k)) -> In a (c_prefill k)).
+  { intros a Ha.
+    assert (E : c_prefill k = firstn n (c_out k) ++ firstn (n - length (c_out k)) rest).
+    { rewrite <- firstn_app, <- F1, F2, firstn_app. unfold n.
+      rewrite firstn_all, Nat.sub_diag, firstn_O, app_nil_r. reflexivity. }
+    rewrite E. apply in_or_app. left. exact Ha. }
+  assert (Hlive : LtsFanoutProofs.live_out k = skipn n (c_out k)) by reflexivity.
+  unfold ok_stream. rewrite !andb_true_iff. repeat split.
+  - apply nodupZ_NoDup. apply F7; [exact Hnd|apply Hpnd; exact Hnd].
+  - apply forallb_forall. intros x Hx. apply memZ_In.
+    apply in_map_iff in Hx. destruct Hx as (a & <- & Ha). apply in_map.
+    rewrite <- (firstn_skipn n (c_out k)) in Ha. apply in_app_or in Ha. destruct Ha as [Ha|Ha].
+    + apply Hpin, Hpre, Ha.
+    + apply F8. rewrite Hlive. exact Ha.
+  - apply existsb_exists. exists (Nat.min n (length (map p_id (c_out k)))). split.
+    + apply in_seq. lia.
+    + unfold split_ok. rewrite firstn_min_len, skipn_min_len, firstn_map, skipn_map, <- Hlive.
+      apply andb_true_iff. split.
+      * apply subseqZ_complete. apply LtsFanoutProofs.subseq_map.
+        eapply LtsFanoutProofs.subseq_trans; [exact F4|]. rewrite F5. apply LtsFanoutProofs.subseq_app_l.
+      * apply forallb_forall. intros x Hx. apply forallb_forall. intros y Hy. apply Nat.ltb_lt.
+        apply in_map_iff in Hx. destruct Hx as (a & <- & Ha).
+        apply in_map_iff in Hy. destruct Hy as (b & <- & Hb).
+        apply Hpre in Ha.
+        pose proof (LtsFanoutProofs.subseq_In _ _ _ b F3 Hb) as Hw.
+        destruct (c_regat k) as [r|] eqn:Er; [|contradiction].
+        apply LtsFanoutProofs.window_in_skipn in Hw. pose proof (F6 r a eq_refl Ha) as Ha'.
+        assert (Eids : map p_id (l_pkts c) =
+                       map p_id (firstn r (s_sent s)) ++ map p_id (skipn r (s_sent s) ++ rest')).
+        { rewrite <- map_app, app_assoc, firstn_skipn, <- F5. reflexivity. }
+        rewrite Eids. apply pos_lt.
+        -- rewrite <- Eids. exact Hnd.
+        -- apply in_map. exact Ha'.
+        -- apply in_map. apply in_or_app. left. exact Hw.
+Qed.
+
+Theorem C01_model_passes : forall c : lcase,
+  l_var c = fixed -> ok_C01 c (obs_of_state (l_n c) (lrun c)) = true.
+Proof.
+  intros c Hv. unfold ok_C01, obs_of_state. cbn [o_cons].
+  apply andb_true_iff. split.
+  - rewrite map_length, seq_length. apply Nat.eqb_refl.
+  - destruct (nodupZ (map p_id (l_pkts c))) eqn:End; [|reflexivity].
+    apply nodupZ_NoDup in End.
+    apply forallb_map_seq. intros i Hi. unfold cobs_of. cbn [o_intact o_out andb].
+    apply stream_ok; assumption.
+Qed.
+
+(* ------------------------------------------------------------------ *)
+(** * 5. C04 *)
+
+(* [gap_need] is the longest key-less run, so [gap_least] is the least admissible G *)
+Lemma gap_from_need : forall G l n, 0 < G ->
+  (LtsBacklogProofs.gap_from G n l = true <-> gap_need n l < G).
+Proof.
+  intros G l. induction l as [|p l IH]; intros n HG; cbn [LtsBacklogProofs.gap_from gap_need].
+  - split; [intros _; exact HG|reflexivity].
+  - destruct (p_key p).
+    + apply IH. exact HG.
+    + rewrite andb_true_iff, Nat.ltb_lt, (IH (S n) HG), Nat.max_lub_lt_iff. reflexivity.
+Qed.
+
+Theorem gap_least_ok : forall pkts, gap_ok (gap_least pkts) pkts = true.
+Proof.
+  intros pkts. unfold LtsBacklogProofs.gap_ok, gap_least. apply andb_true_iff. split.
+  - apply Nat.ltb_lt. lia.
+  - apply gap_from_need; lia.
+Qed.
+
+Theorem gap_least_least : forall G pkts, gap_ok G pkts = true -> gap_least pkts <= G.
+Proof.
+  intros G pkts H. unfold LtsBacklogProofs.gap_ok in H. apply andb_true_iff in H.
+  destruct H as [H0 H]. apply Nat.ltb_lt in H0. apply (gap_from_need G pkts 0 H0) in H.
+  unfold gap_least. lia.
+Qed.
+
+Theorem C04_model_passes : forall c : lcase,
+  l_var c = fixed -> ok_C04 c (obs_of_state (l_n c) (lrun c)) = true.
+Proof.
+  intros c Hv. pose proof (lrun_fixed c Hv) as Hs.
+  pose proof (LtsBacklogProofs.backlog_bound (l_maxq c) rcache (rc_empty (l_gop c)) rc_add rc_snap
+                (l_n c) (pan c) (gap_least (l_pkts c)) (l_pkts c) (stp c) (l_sched c)) as Hbl.
+  pose proof (LtsBacklogProofs.panic_detaches (l_maxq c) rcache (rc_empty (l_gop c)) rc_add rc_snap
+                (l_n c) (pan c) (l_pkts c) (stp c) (l_sched c)) as Hpan.
+  cbv zeta in Hbl, Hpan. rewrite <- Hs in Hbl, Hpan.
+  unfold ok_C04, obs_of_state. cbn [o_cons].
+  apply andb_true_iff. split.
+  - rewrite map_length, seq_length. apply Nat.eqb_refl.
+  - apply forall_cons_map. intros i Hi. apply andb_true_iff. split.
+    + unfold cobs_of. cbn [o_reg o_qlen]. destruct (c_reg (s_cs (lrun c) i)); [|reflexivity].
+      apply Z.leb_le. apply inj_le.
+      specialize (Hbl i (gap_least_ok (l_pkts c))).
+      destruct (prefill_facts c Hv i) as (_ & _ & Hlen).
+      specialize (Hlen _ (gap_least_ok (l_pkts c))). cbv zeta in Hlen.
+      unfold backlog_limit.
+      pose proof (Nat.max_le_compat_l _ _ (l_maxq c) Hlen). lia.
+    + fold (pan c i). destruct (0 <? pan c i) eqn:E0; [|reflexivity].
+      apply Nat.ltb_lt in E0. destruct (Hpan i E0) as (H1 & _ & _ & H2).
+      unfold cobs_of. cbn [o_out o_pc o_reg]. rewrite map_length.
+      apply andb_true_iff. split; [apply Nat.leb_le; exact H1|].
+      destruct (pan c i <=? length (c_out (s_cs (lrun c) i))) eqn:E1; [|reflexivity].
+      apply Nat.leb_le in E1. destruct (H2 E1) as (Hpc & Hreg & _).
+      rewrite Hreg. destruct Hpc as [-> | ->]; reflexivity.
+Qed.
+
+(* ------------------------------------------------------------------ *)
+(** * 6. on the wire: the oracle applied to (case, the model's observation of the case) says 1 *)
+
+Theorem wire_model_passes : forall v : val, l_var (dec_lcase v) = fixed ->
+  ok_C03 (dec_lcase v) (dec_obs (lts_run v)) = true /\
+  ok_C01 (dec_lcase v) (dec_obs (lts_run v)) = true /\
+  ok_C04 (dec_lcase v) (dec_obs (lts_run v)) = true.
+Proof.
+  intros v Hv. unfold lts_run. rewrite dec_enc_obs.
+  split; [apply C03_model_passes|split; [apply C01_model_passes|apply C04_model_passes]]; exact Hv.
 Qed.
